@@ -228,13 +228,13 @@ func (d *protoDom) glueStep(st *sState, in ssa.Instruction) bool {
 		if f, ok := e.get(st, x.X).(gField); ok {
 			// a field of an embedded struct
 			if stt, ok := x.X.Type().Underlying().(*types.Pointer).Elem().Underlying().(*types.Struct); ok {
-				st.vals[x] = gField{f.recv + "." + f.field, stt.Field(x.Field).Name()}
+				st.vals[x] = gField{f.recv + "." + f.field, e.p.canonField(structNameOf(x.X.Type()), stt.Field(x.Field).Name(), stt.Field(x.Field).Type())}
 				return true
 			}
 		}
 		if rv, ok := e.get(st, x.X).(gRecv); ok {
 			stt := x.X.Type().Underlying().(*types.Pointer).Elem().Underlying().(*types.Struct)
-			st.vals[x] = gField{rv.name, stt.Field(x.Field).Name()}
+			st.vals[x] = gField{rv.name, e.p.canonField(structNameOf(x.X.Type()), stt.Field(x.Field).Name(), stt.Field(x.Field).Type())}
 			return true
 		}
 	case *ssa.UnOp:
